@@ -1,4 +1,6 @@
 import CV.Proofs.InvQueue
+import CV.Proofs.InvOrderLog
+import CV.Proofs.InvOrderPass
 /-
 C02 — dispatch order.
 
@@ -778,5 +780,534 @@ def exStTape : St :=
     tape := [.inv 9 4 0] }
 example : exStTape.chooseHandler 9 0 [2, 4, 3, 1] = 4 ∧ exStTape.q2hint 9 0 [2, 4, 3, 1] = some 4 ∧
     chooseNext exStTape.q2prio (some 4) [0, 2, 4, 3, 1] = some (4, [0, 2, 3, 1]) := by decide
+
+
+/-! ## 9. handler order on the machine (second round)
+
+Sections 6 and 8 left a gap: `handlers_desc` / `stop_cuts` are about the layer function
+`chooseIter`, `handler_loop_step` needs the `Desc` hypothesis for the pending list, and
+`dispatcher_sorts_desc_partial` needs "ids declared, priorities ≥ -100" for the collected
+handlers.  The theorems below close it with a Reach-level invariant (CV/Proofs/InvOrderBase.lean,
+InvOrder.lean, InvOrderMain.lean: `O2I`, proved by one case analysis of `step`; InvOrderLog.lean for
+the statements about the log):
+
+  * handler records never change once declared (the table is only appended to), every id in a
+    handler table / global list / cached list / pending list is declared, every declared
+    priority is ≥ -100 - so every cached list and every pending list of a `.hLoop` / `.hAfter` /
+    `.hApply` frame on the stack is descending (`order_state_inv`, `pending_desc`,
+    `dispatcher_list_desc`);
+  * consequently, in the machine's own LOG, the user handlers invoked for one event are invoked
+    in non-increasing priority order (`handlers_desc_log_partial`; as the spec predicate the
+    harness evaluates on the implementation's log: `handlerOrderOk_machine_partial`), and after
+    the `.hApply` step that saw `event.stopped` no handler is invoked for that event any more
+    (`stop_cuts_machine_partial`).
+    "One dispatch" is identified in the log by the event id, so these three carry the hypothesis
+    `DispatchedOnce log` (the `D` entries of the log are pairwise different).  It is a decidable
+    property of the log itself and holds whenever no `Timer` is used: a persistent `Timer` fires
+    ONE event object again and again (`handlerOrderOk_timer_witness`). -/
+
+/-- hypothesis on the initial state of a driver session: every declared handler has a priority
+    ≥ -100 (the fallback `generate_events` handler, appended AFTER sorting, has -100; see
+    `dispatcher_sorts_desc_witness`), whatever is installed in a handler table is a declared
+    record, cached handler lists (none in a fresh manager) are descending and declared, nothing
+    has been logged yet -/
+structure InitOrder (s : St) : Prop where
+  low : ∀ hd ∈ s.hs, -100 ≤ hd.prio
+  hid : ∀ c k h, (k, h) ∈ (s.comp c).htab → h < s.hs.length
+  gid : ∀ c h, h ∈ (s.comp c).globals → h < s.hs.length
+  cache : ∀ c key l, (key, l) ∈ (s.comp c).cache →
+    l.Pairwise (fun a b => s.q2prio a ≥ s.q2prio b) ∧ ∀ h ∈ l, h < s.hs.length
+  log : s.log = []
+
+theorem InitOrder.o2 {s : St} (h : InitOrder s) : O2Init s := ⟨⟨h.low, h.hid, h.gid, h.cache⟩, h.log⟩
+
+/-- `exStGE` (one component, a user `generate_events` handler of priority 3) and `exStTape` qualify -/
+example : InitOrder exStGE := by
+  refine ⟨by decide, ?_, ?_, ?_, rfl⟩
+  · intro c k h hm
+    have : (exStGE.comp c).htab = [(some Name.generateEvents, 0)] ∨ (exStGE.comp c).htab = [] := by
+      match c with
+      | 0 => exact .inl rfl
+      | n + 1 => exact .inr rfl
+    rcases this with e | e <;> rw [e] at hm
+    · simp only [List.mem_singleton, Prod.mk.injEq] at hm
+      rw [hm.2]; decide
+    · cases hm
+  · intro c h hm
+    have : (exStGE.comp c).globals = [] := by
+      match c with
+      | 0 => rfl
+      | n + 1 => rfl
+    rw [this] at hm; cases hm
+  · intro c key l hm
+    have : (exStGE.comp c).cache = [] := by
+      match c with
+      | 0 => rfl
+      | n + 1 => rfl
+    rw [this] at hm; cases hm
+
+/-- **State invariant.**  In every reachable configuration: all declared priorities are ≥ -100,
+    every id in a handler table or global list is declared, and every cached handler list is
+    sorted by descending priority and consists of declared handlers. -/
+theorem order_state_inv (s0 : St) (h0 : InitOrder s0) (c : Cfg) (hr : Reach s0 c) :
+    (∀ hd ∈ c.st.hs, -100 ≤ hd.prio) ∧
+    (∀ x k h, (k, h) ∈ (c.st.comp x).htab → h < c.st.hs.length) ∧
+    (∀ x h, h ∈ (c.st.comp x).globals → h < c.st.hs.length) ∧
+    (∀ x key l, (key, l) ∈ (c.st.comp x).cache →
+      l.Pairwise (fun a b => c.st.q2prio a ≥ c.st.q2prio b) ∧ ∀ h ∈ l, h < c.st.hs.length) :=
+  let h := (O2I.reach h0.o2 c hr).st
+  ⟨h.low, h.hid, h.gid, h.cache⟩
+
+/-- **Handler records never change**: one step only appends to the handler table. -/
+theorem handler_table_append_only (c : Cfg) : ∃ ext, (step c).st.hs = c.st.hs ++ ext := by
+  cases hst : c.stack with
+  | nil => rw [step_nil c hst]; exact ⟨[], by simp⟩
+  | cons f k =>
+    cases hx : c.exn with
+    | some ex =>
+      rw [step_cons_exn c f k ex hst hx]
+      have : O2G k c.st (unwind c k ex f) := by cases f <;> ((try dsimp only [unwind]); o2t)
+      exact this.rel.hs
+    | none =>
+      rw [step_cons c f k hst hx]
+      cases f
+      case dispatcher r e rem =>
+        have h : (stepFrame c k (.dispatcher r e rem)).st = (c.st.dispatchPre r e rem).2 := by
+          dsimp only [stepFrame]; unfold Cfg.dispatcher; split <;> rfl
+        rw [h]; exact (o2_dispatchPre_rel c.st r e rem).logged.1
+      case hLoop r e l err stale =>
+        cases l with
+        | nil => exact ⟨[], by simp; rfl⟩
+        | cons h0 rest0 => exact ⟨[], by simp; rfl⟩
+      case invoke r h e =>
+        rcases o2_invoke_cases c k r h e with hg | ⟨s, hs, hr, _⟩
+        · exact hg.rel.hs
+        · obtain ⟨x1, e1⟩ := hs.hs
+          obtain ⟨x2, e2⟩ := hr.logged.1
+          exact ⟨x1 ++ x2, by dsimp only [stepFrame]; rw [e2, e1, List.append_assoc]⟩
+      case hAfter r e l err stale => exact (o2_hAfter_shape c k r e l err stale).1.hs
+      case hApply r e l err v =>
+        rcases o2_hApply_shape c k r e l err v with h | h
+        · exact h.rel.hs
+        · exact h.1.hs
+      all_goals
+        (refine O2R.hs (O2G.rel (k := k) ?_); (try dsimp only [stepFrame]); o2t)
+
+/-- **Pending lists are descending.**  In every reachable configuration the list of handlers still
+    to run carried by any `.hLoop` / `.hAfter` / `.hApply` frame on the stack - at any depth, i.e.
+    also of dispatches suspended by a nested `flush()` - is sorted by descending priority
+    (priority table of the current state) and consists of declared handlers.  This is the `Desc`
+    hypothesis of `handler_loop_step`, `choose_max`, `choose_rest`. -/
+theorem pending_desc (s0 : St) (h0 : InitOrder s0) (c : Cfg) (hr : Reach s0 c)
+    (r e : Nat) (l : List Nat) (err : Bool) (o : Outcome)
+    (hf : Frame.hLoop r e l err o ∈ c.stack ∨ Frame.hAfter r e l err o ∈ c.stack ∨ Frame.hApply r e l err o ∈ c.stack) :
+    l.Pairwise (fun a b => c.st.q2prio a ≥ c.st.q2prio b) ∧ ∀ h ∈ l, h < c.st.hs.length := by
+  have hi := O2I.reach h0.o2 c hr
+  rcases hf with h | h | h
+  · exact (hi.ok _ h).desc e l rfl
+  · exact (hi.ok _ h).desc e l rfl
+  · exact (hi.ok _ h).desc e l rfl
+
+/-- **What `_dispatcher` hands to the handler loop** in a reachable configuration (cache hit or
+    miss, any event incl. `generate_events` with its fallback handler): a cancelled event goes to
+    `_effectDone`; otherwise the loop starts with a list that is descending and declared.
+    (Full-strength version of `dispatcher_sorts_desc_partial`: its hypotheses `hin`, `hlow` are
+    consequences of the invariant.) -/
+theorem dispatcher_list_desc (s0 : St) (h0 : InitOrder s0) (c : Cfg) (hr : Reach s0 c)
+    (r e rem : Nat) (k : List Frame) (hst : c.stack = .dispatcher r e rem :: k) (hx : c.exn = none) :
+    (step c).stack = .effectDone r e false :: k ∨
+    ∃ hs, (step c).stack = .hLoop r e hs false .none :: k ∧
+      hs.Pairwise (fun a b => (step c).st.q2prio a ≥ (step c).st.q2prio b) ∧ ∀ h ∈ hs, h < (step c).st.hs.length := by
+  have hs : step c = c.dispatcher k r e rem := step_cons c _ k hst hx
+  have hshape : (step c).stack = .effectDone r e false :: k ∨ ∃ l, (step c).stack = .hLoop r e l false .none :: k := by
+    rw [hs]; unfold Cfg.dispatcher
+    split
+    · exact .inl rfl
+    · exact .inr ⟨_, rfl⟩
+  rcases hshape with h | ⟨l, h⟩
+  · exact .inl h
+  · exact .inr ⟨l, h, pending_desc s0 h0 (step c) (.step hr) r e l false .none (.inl (by rw [h]; exact List.mem_cons_self))⟩
+
+/-- every event object was dispatched at most once: the `D` entries of the log are pairwise different -/
+def DispatchedOnce (log : List Entry) : Prop :=
+  (log.filterMap fun x => match x with | .disp e => some e | _ => none).Nodup
+
+example : DispatchedOnce = O2Once := rfl
+
+/-- **The handler chosen next.**  In a reachable configuration whose top frame is the handler loop
+    of event `e` with handlers pending, the step calls a handler `h` and keeps `rest` such that:
+    every handler invoked so far for `e` (`I` entries of the log) has a priority ≥ `h`'s, and `h`'s
+    priority is ≥ that of every handler kept.  (`DispatchedOnce`: see the section header.) -/
+theorem handler_step_order_partial (s0 : St) (h0 : InitOrder s0) (c : Cfg) (hr : Reach s0 c)
+    (honce : DispatchedOnce c.st.log)
+    (r e h0' : Nat) (rest0 : List Nat) (err : Bool) (stale : Outcome) (k : List Frame)
+    (hst : c.stack = .hLoop r e (h0' :: rest0) err stale :: k) (hx : c.exn = none) :
+    ∃ h rest, (step c).stack = .invoke r h e :: .hAfter r e rest err stale :: k ∧
+      (step c).st.log = c.st.log ∧ (step c).st.hs = c.st.hs ∧ h ∈ h0' :: rest0 ∧ rest = (h0' :: rest0).erase h ∧
+      (∀ h' ∈ invokedFor c.st.log e, c.st.q2prio h' ≥ c.st.q2prio h) ∧
+      (∀ x ∈ rest, c.st.q2prio h ≥ c.st.q2prio x) := by
+  have hi := O2I.reach h0.o2 (step c) (.step hr)
+  have hs : step c = c.goto k (c.st.modEv e fun x => { x with geHandler := some (c.st.chooseHandler e h0' rest0) })
+      [.invoke r (c.st.chooseHandler e h0' rest0) e,
+       .hAfter r e ((h0' :: rest0).erase (c.st.chooseHandler e h0' rest0)) err stale] := step_cons c _ k hst hx
+  have hlog : (step c).st.log = c.st.log := by rw [hs]; rfl
+  have hhs : (step c).st.hs = c.st.hs := by rw [hs]; rfl
+  have hprio : (step c).st.q2prio = c.st.q2prio := St.q2prio_of_hs hhs
+  have hstk := (hi.once (by rw [hlog]; exact honce)).1
+  have hstack : (step c).stack = .invoke r (c.st.chooseHandler e h0' rest0) e ::
+      .hAfter r e ((h0' :: rest0).erase (c.st.chooseHandler e h0' rest0)) err stale :: k := by rw [hs]; rfl
+  rw [hstack] at hstk
+  obtain ⟨h1, r', rest, err', stale', k', hk, h2⟩ := hstk.1.call _ e rfl
+  cases hk
+  rw [hlog, hprio] at h1
+  rw [hprio] at h2
+  exact ⟨_, _, hstack, hlog, hhs, (chooseNext_spec (q2_chooseHandler c.st e h0' rest0)).1, rfl, h1, h2⟩
+
+/-- **Handlers of one event run in non-increasing priority order - on the machine's log.**  For
+    every reachable configuration whose log dispatches every event at most once and every event
+    `e`: the user handlers invoked for `e` (`I` entries `(e, h, step 0)`, in chronological order)
+    have non-increasing priorities.
+    FULL statement (without `DispatchedOnce`): false when one event OBJECT is dispatched several
+    times (`handlerOrderOk_timer_witness`); per dispatch it is what `handler_step_order_partial`
+    says step by step. -/
+theorem handlers_desc_log_partial (s0 : St) (h0 : InitOrder s0) (c : Cfg) (hr : Reach s0 c)
+    (honce : DispatchedOnce c.st.log) (e : Nat) :
+    (invokedFor c.st.log.reverse e).Pairwise (fun a b => c.st.q2prio a ≥ c.st.q2prio b) :=
+  (O2I.reach h0.o2 c hr).chron honce e
+
+/-- ... as the spec predicate of CV/Model/Core/LogSpec.lean, which the harness evaluates on the
+    IMPLEMENTATION's log (`spec handlerorder impl`): it holds of the model's own log
+    (`spec handlerorder model` evaluates exactly this expression). -/
+theorem handlerOrderOk_machine_partial (s0 : St) (h0 : InitOrder s0) (c : Cfg) (hr : Reach s0 c)
+    (honce : DispatchedOnce c.st.log) :
+    handlerOrderOk (fun h => (c.st.hs.getD h dfltHandler).prio) c.st.log.reverse = true :=
+  o2_handlerOrderOk (O2I.reach h0.o2 c hr) honce
+
+/-- every `I` entry of the log belongs to an event that has a `D` entry, and names a declared handler -/
+theorem invoked_is_dispatched (s0 : St) (h0 : InitOrder s0) (c : Cfg) (hr : Reach s0 c) (e h : Nat)
+    (hm : Entry.inv e h 0 ∈ c.st.log) : Entry.disp e ∈ c.st.log ∧ h < c.st.hs.length :=
+  (O2I.reach h0.o2 c hr).dispd e h hm
+
+/-- **Who logs what, who pushes what.**  One step from any configuration with top frame `f`:
+    a `D` entry for `e` is logged only (and always) by the step of `.dispatcher _ e _`; an `I` entry
+    `(e, h)` only by the step of the call frame `.invoke _ h e`; a loop frame or call frame of an
+    event `e` is pushed only by the step of `_dispatcher(e)` or of a loop frame of `e` itself - in
+    particular never by `fire()`, never by a frame of another event. -/
+theorem step_classification (c : Cfg) (f : Frame) (k : List Frame) (hst : c.stack = f :: k) :
+    (∃ fs, (step c).stack = fs ++ k ∧ ∀ g ∈ fs, ∀ e, g.o2ev = some e → f.o2dev = some e ∧ c.exn = none) ∧
+    (∃ es, (step c).st.log = es ++ c.st.log ∧
+      (∀ e, Entry.disp e ∈ es → c.exn = none ∧ ∃ r rem, f = .dispatcher r e rem) ∧
+      (∀ e h, Entry.inv e h 0 ∈ es → c.exn = none ∧ ∃ r, f = .invoke r h e) ∧
+      (∀ r e rem, f = .dispatcher r e rem → c.exn = none → Entry.disp e ∈ es)) :=
+  let h := o2_step_class c f k hst
+  ⟨h.push, h.log⟩
+
+/-- **`stop()` on the machine's log.**  A reachable configuration whose top frame is `.hApply` for
+    event `e` (the handler just returned) and `event.stopped` is set: the step replaces the loop
+    by `.dispFin` (dropping the pending handlers `rest`, all of priority ≤ every handler that ran);
+    and in every later configuration `c'` of the session (any number of steps, any further
+    external operations) whose log dispatches every event at most once, the handlers invoked for
+    `e` are exactly those invoked before the step: no further handler runs for `e`. -/
+theorem stop_cuts_machine_partial (s0 : St) (h0 : InitOrder s0) (c : Cfg) (hr : Reach s0 c)
+    (r e : Nat) (rest : List Nat) (err : Bool) (v : Outcome) (k : List Frame)
+    (hst : c.stack = .hApply r e rest err v :: k) (hx : c.exn = none)
+    (hstop : ((c.st.applyValue r e v).ev e).stopped = true)
+    (c' : Cfg) (hl : O2Later (step c) c') (honce : DispatchedOnce c'.st.log) :
+    (step c).stack = .dispFin r e err :: k ∧
+    (∀ h' ∈ invokedFor c.st.log e, ∀ x ∈ rest, c.st.q2prio h' ≥ c.st.q2prio x) ∧
+    invokedFor c'.st.log e = invokedFor c.st.log e := by
+  have hi := O2I.reach h0.o2 c hr
+  have hstack : (step c).stack = .dispFin r e err :: k := by
+    rw [q2_hApply_step c r e rest err v k hst hx, if_pos hstop]
+  -- the log of the later configuration extends the log of `c`
+  have hext : ∀ c'', O2Later (step c) c'' → ∃ es, c''.st.log = es ++ c.st.log := by
+    intro c'' h
+    induction h with
+    | refl => exact step_log c
+    | step _ ih => obtain ⟨es, he⟩ := ih; obtain ⟨es', he'⟩ := step_log _; exact ⟨es' ++ es, by rw [he', he, List.append_assoc]⟩
+    | next d tape op _ _ ih =>
+      obtain ⟨es, he⟩ := ih
+      exact ⟨es, by rw [o2_startOf_st]; exact he⟩
+  obtain ⟨es, he⟩ := hext c' hl
+  have honce0 : O2Once c.st.log := o2_once_of_append (he ▸ honce)
+  have hstk := (hi.once honce0).1
+  rw [hst] at hstk
+  obtain ⟨h1, h2⟩ := hstk.1.loop e rest rfl
+  have hfok := hi.ok _ (hst ▸ List.mem_cons_self)
+  -- the step itself is quiet
+  obtain ⟨⟨_, _, _⟩, es1, he1, hd1, hi1, _⟩ := o2_step_class c _ k hst
+  have hclosed : O2Closed e (step c) := by
+    refine ⟨by rw [he1]; exact List.mem_append_right _ (hfok.disp e rfl), ?_⟩
+    intro g hg hev
+    rw [hstack] at hg
+    rcases List.mem_cons.mp hg with h3 | h3
+    · rw [h3] at hev; cases hev
+    · exact h2 g h3 hev
+  have hsame : invokedFor (step c).st.log e = invokedFor c.st.log e := by
+    rw [he1, o2_invoked_append, o2_invoked_nil_of, List.nil_append]
+    intro x hm
+    obtain ⟨_, r1, hf⟩ := hi1 e x hm
+    cases hf
+  exact ⟨hstack, h1, ((o2_closed_later hclosed hl) honce).2.trans hsame⟩
+
+/-- `O2Later` contains whole runs: `runN n (step c)` for every `n` -/
+example (c : Cfg) (n : Nat) : O2Later (step c) (runN n (step c)) := O2Later.runN _ n
+
+/-- the excluded case: a running manager 0 with a persistent `Timer` (component 1, interval 0) for
+    event name 1, and two handlers for it with priorities 1 and 0 (their sorted list already
+    cached, so that the kernel can evaluate the run without unfolding `mergeSort`) -/
+def exStTimer : St :=
+  { comps := [{ parent := 0, root := 0, children := [1], running := true,
+                htab := [(some ⟨1, []⟩, 0), (some ⟨1, []⟩, 1)],
+                cache := [((⟨1, []⟩, [.star]), [0, 1])] },
+              { parent := 0, root := 0, htab := [(some Name.generateEvents, 2)] }],
+    hs := [{ owner := 0, names := [⟨1, []⟩], chan := none, prio := 1, kind := .user 0 },
+           { owner := 0, names := [⟨1, []⟩], chan := none, prio := 0, kind := .user 0 },
+           { owner := 1, names := [Name.generateEvents], chan := none, kind := .timer 0 }],
+    progs := [[]], tmpls := [{ name := ⟨1, []⟩ }],
+    timers := [{ interval := 0, persist := true, tmpl := 0, target := none, comp := 1, parent := 0, created := true }] }
+
+/-- three `tick()`s -/
+def exT1 : Cfg := runN 60 (startOf (envChange exStTimer 0 []) (.tick 0))
+def exT2 : Cfg := runN 60 (startOf (envChange exT1.st 0 []) (.tick 0))
+def exT3 : Cfg := runN 60 (startOf (envChange exT2.st 0 []) (.tick 0))
+
+example : InitOrder exStTimer := by
+  refine ⟨by decide, ?_, ?_, ?_, rfl⟩
+  · intro c k h hm
+    have : ∀ p ∈ (exStTimer.comp c).htab, p.2 < 3 := by
+      match c with
+      | 0 => decide
+      | 1 => decide
+      | n + 2 => intro p hp; cases hp
+    exact this _ hm
+  · intro c h hm
+    have : (exStTimer.comp c).globals = [] := by
+      match c with
+      | 0 => rfl
+      | 1 => rfl
+      | n + 2 => rfl
+    rw [this] at hm; cases hm
+  · intro c key l hm
+    have : ∀ p ∈ (exStTimer.comp c).cache, p.2 = [0, 1] := by
+      match c with
+      | 0 => decide
+      | 1 => intro p hp; cases hp
+      | n + 2 => intro p hp; cases hp
+    have hl : l = [0, 1] := this _ hm
+    subst hl
+    decide
+
+/-- why the log statements carry `DispatchedOnce`: the `Timer` fires the SAME event object (id 1)
+    at every tick; it is dispatched twice, its two handlers run in the order 0, 1, 0, 1 -
+    descending within each dispatch, but the log identifies a dispatch only by the event id, and
+    `handlerOrderOk` (which groups `I` entries by event id) fails.  The real `Timer` does the same
+    (`self.fire(self.event, …)` with one `self.event`); the harness evaluates `handlerOrderOk` only
+    on scenarios without timers. -/
+theorem handlerOrderOk_timer_witness :
+    Reach exStTimer exT3 ∧ ¬ DispatchedOnce exT3.st.log ∧
+    invokedFor exT3.st.log.reverse 1 = [0, 1, 0, 1] ∧
+    handlerOrderOk (fun h => (exT3.st.hs.getD h dfltHandler).prio) exT3.st.log.reverse = false := by
+  refine ⟨?_, ?_, by decide +kernel, by decide +kernel⟩
+  · have h1 : Reach exStTimer exT1 := Reach.runN (.init 0 [] _) 60
+    have h2 : Reach exStTimer exT2 := Reach.runN (.next 0 [] _ h1 (by decide +kernel)) 60
+    exact Reach.runN (.next 0 [] _ h2 (by decide +kernel)) 60
+  · unfold DispatchedOnce; decide +kernel
+
+
+/-! ## 10. pass order on the machine's own log (second round)
+
+`passOrderOk` (CV/Model/Core/LogSpec.lean) is the spec predicate the harness evaluates on the
+IMPLEMENTATION's log: it replays the `F` / `B` / `D` entries with one abstract queue - events
+fired are pending, a pass takes exactly the pending events and must dispatch them in ascending
+priority, fire order among equals, nothing fired meanwhile overtakes.  It is written from the
+property statement, for ONE manager tree ("single root").  The theorem below proves it of the
+MODEL's log (what `spec passorder model` evaluates), for every guarded run - which closes the
+triangle statement / model / implementation for the pass-order clauses.  Proof:
+CV/Proofs/InvOrderPassBase.lean (the relation `O2PR`: queue of the root and replay state move
+together, through all primitives / helpers / arms) and InvOrderPass.lean (invariant `O2PI`: the
+replay state's `pending` IS the root's deque, `expected` IS the root's heap in `(prio, seq)`
+order; `pop_is_min` and `QInv` make the `D` entries come out in that order). -/
+
+/-- single root: component 0 exists and is every component's root (one manager tree) -/
+def SingleRoot (s : St) : Prop := 0 < s.comps.length ∧ ∀ x, (s.comp x).root = 0
+
+/-- hypothesis on the initial state: freshly constructed queues, nothing logged -/
+structure InitPass (s : St) : Prop where
+  eq : ∀ x, (s.comp x).eq = {}
+  log : s.log = []
+
+/-- runs in which every step is taken from a configuration with a single root that does not
+    drain a non-empty deque (`ReachSR`, CV/Proofs/InvOrderPass.lean, uses literally these guards) -/
+example (s0 : St) (c : Cfg) (h : ReachSR s0 c) (hg : NoDrain c) (hs : SingleRoot c.st) : ReachSR s0 (step c) :=
+  .step h hg ⟨hs.1, hs.2⟩
+
+/-- guarded runs are guarded runs of section 8, hence runs -/
+theorem reachSR_reachND {s0 : St} {c : Cfg} (h : ReachSR s0 c) : ReachND s0 c := h.reachND
+
+/-- **Pass order on the machine's log.**  For every session from fresh queues in which every step
+    is taken under a single root and without draining a non-empty deque: the spec predicate
+    `passOrderOk` holds of the machine's own log - every `B` entry announces exactly the events
+    fired and not yet taken, the `D` entries of a pass are the snapshot sorted by priority, then
+    fire order, a new pass starts only when the previous one is exhausted, and nothing is
+    dispatched that was not taken by the current pass (no overtaking, nested flushes included).
+    FULL statement (over `Reach`): false, `passOrderOk_two_roots_witness`: the predicate replays
+    ONE queue, two manager trees have two. -/
+theorem pass_order_machine_partial (s0 : St) (h0 : InitPass s0) (c : Cfg) (hr : ReachSR s0 c) :
+    passOrderOk c.st.log.reverse = true :=
+  o2_passOrderOk ⟨h0.eq, h0.log⟩ c hr
+
+/-- the invariant behind it, for readers: in every such configuration the replay state of the
+    log IS the root's queue - `pending` = deque (with `ord` = sequence number), `count` = counter,
+    `expected` = the heap in `(prio, seq)` order (preceded by the event just popped while its
+    `_dispatcher` frame is on top) -/
+theorem pass_replay_is_queue (s0 : St) (h0 : InitPass s0) (c : Cfg) (hr : ReachSR s0 c) :
+    (o2pass c.st).ok = true ∧
+    (o2pass c.st).pending = (c.st.comp 0).eq.queue.map QItem.toP ∧
+    (o2pass c.st).count = (c.st.comp 0).eq.counter ∧
+    (o2pass c.st).expected = o2exp c :=
+  let h := (O2PI.reach ⟨h0.eq, h0.log⟩ c hr).corr
+  ⟨h.ok, h.pending, h.count, h.expected⟩
+
+/-- a decidable sufficient check for the two guards -/
+def guardOk (c : Cfg) : Bool :=
+  (0 < c.st.comps.length && c.st.comps.all (fun x => x.root == 0)) &&
+  (match c.stack with | .register .. :: _ => false | _ => true)
+
+theorem guardOk_sound {c : Cfg} (h : guardOk c = true) : NoDrain c ∧ SingleRoot c.st := by
+  unfold guardOk at h
+  rw [Bool.and_eq_true, Bool.and_eq_true] at h
+  obtain ⟨⟨h1, h2⟩, h3⟩ := h
+  refine ⟨?_, by simpa using h1, ?_⟩
+  · intro ch p k hs _
+    rw [hs] at h3; cases h3
+  · intro x
+    unfold St.comp
+    rw [List.getD_eq_getElem?_getD]
+    cases hx : c.st.comps[x]? with
+    | none => rfl
+    | some y =>
+      rw [List.all_eq_true] at h2
+      have := h2 y (List.mem_of_getElem? hx)
+      simpa using this
+
+theorem reachSR_runN {s0 : St} {c : Cfg} (h : ReachSR s0 c) : ∀ n, (∀ i, i < n → guardOk (runN i c) = true) →
+    ReachSR s0 (runN n c) := by
+  intro n
+  induction n generalizing c with
+  | zero => intro _; exact h
+  | succ n ih =>
+    intro hg
+    rw [runN_succ]
+    have h0 := guardOk_sound (hg 0 (Nat.succ_pos _))
+    refine ih (.step h h0.1 ⟨h0.2.1, h0.2.2⟩) ?_
+    intro i hi
+    rw [← runN_succ]; exact hg (i + 1) (Nat.succ_lt_succ hi)
+
+/-- one fresh manager; three fires with priorities 2, -1, 2, then a flush: a complete guarded session -/
+def exStOne : St := { comps := [{ parent := 0, root := 0 }], tmpls := [{ name := ⟨1, []⟩ }] }
+def exP1 : Cfg := runN 5 (startOf (envChange exStOne 0 []) (.doAct 0 (.fire 0 none 2 false)))
+def exP2 : Cfg := runN 5 (startOf (envChange exP1.st 0 []) (.doAct 0 (.fire 0 none (-1) false)))
+def exP3 : Cfg := runN 5 (startOf (envChange exP2.st 0 []) (.doAct 0 (.fire 0 none 2 false)))
+def exP4 : Cfg := runN 60 (startOf (envChange exP3.st 0 []) (.flush 0))
+
+example : InitPass exStOne := ⟨fun x => by
+  match x with
+  | 0 => rfl
+  | n + 1 => rfl, rfl⟩
+
+theorem exP4_reachSR : ReachSR exStOne exP4 := by
+  have h1 : ReachSR exStOne exP1 := reachSR_runN (.init 0 [] _) 5 (by decide +kernel)
+  have h2 : ReachSR exStOne exP2 := reachSR_runN (.next 0 [] _ h1 (by decide +kernel)) 5 (by decide +kernel)
+  have h3 : ReachSR exStOne exP3 := reachSR_runN (.next 0 [] _ h2 (by decide +kernel)) 5 (by decide +kernel)
+  exact reachSR_runN (.next 0 [] _ h3 (by decide +kernel)) 60 (by decide +kernel)
+
+/-- the session is complete, dispatched all three events - the one with priority -1 first, then
+    the two with priority 2 in fire order - and (by the theorem, not by evaluation) its log
+    satisfies the spec predicate -/
+example : done exP4 = true ∧
+    (exP4.st.log.reverse.filterMap fun x => match x with | .disp e => some e | _ => none) = [1, 0, 2] ∧
+    passOrderOk exP4.st.log.reverse = true :=
+  ⟨by decide +kernel, by decide +kernel, pass_order_machine_partial exStOne ⟨fun x => by
+    match x with
+    | 0 => rfl
+    | n + 1 => rfl, rfl⟩ exP4 exP4_reachSR⟩
+
+/-- the excluded case: two managers (`exSt`), one fire on each, then `0.flush()`: the log reads
+    `F F B(1) …` - the pass took one event while the single abstract queue holds two -/
+def exR1 : Cfg := runN 5 (startOf (envChange exSt 0 []) (.doAct 1 (.fire 0 none 0 false)))
+def exR2 : Cfg := runN 5 (startOf (envChange exR1.st 0 []) (.doAct 0 (.fire 0 none 0 false)))
+def exR3 : Cfg := runN 60 (startOf (envChange exR2.st 0 []) (.flush 0))
+
+theorem passOrderOk_two_roots_witness :
+    InitPass exSt ∧ Reach exSt exR3 ∧ ¬ SingleRoot exSt ∧ passOrderOk exR3.st.log.reverse = false := by
+  refine ⟨⟨fun x => by
+      match x with
+      | 0 => rfl
+      | 1 => rfl
+      | n + 2 => rfl, rfl⟩, ?_, ?_, by decide +kernel⟩
+  · have h1 : Reach exSt exR1 := Reach.runN (.init 0 [] _) 5
+    have h2 : Reach exSt exR2 := Reach.runN (.next 0 [] _ h1 (by decide +kernel)) 5
+    exact Reach.runN (.next 0 [] _ h2 (by decide +kernel)) 60
+  · intro h
+    have := h.2 1
+    revert this
+    decide
+
+/-! ## 11. non-vacuity of the hypotheses of section 9 on real runs -/
+
+/-- `handler_step_order_partial` / `handlers_desc_log_partial` / `handlerOrderOk_machine_partial`:
+    the timer session after two ticks (`exT2`) is reachable from an `InitOrder` state, has
+    dispatched every event once, and has invoked both handlers of event 1 (priorities 1, 0) -/
+example : Reach exStTimer exT2 ∧ DispatchedOnce exT2.st.log ∧ invokedFor exT2.st.log.reverse 1 = [0, 1] := by
+  refine ⟨Reach.runN (.next 0 [] _ (Reach.runN (.init 0 [] _) 60) (by decide +kernel)) 60, ?_, by decide +kernel⟩
+  unfold DispatchedOnce; decide +kernel
+
+/-- `stop_cuts_machine_partial`: one manager, two handlers for event name 1 with priorities 1 and 0,
+    the first one calls `event.stop()` -/
+def exStStop : St :=
+  { comps := [{ parent := 0, root := 0, htab := [(some ⟨1, []⟩, 0), (some ⟨1, []⟩, 1)],
+                cache := [((⟨1, []⟩, [.star]), [0, 1])] }],
+    hs := [{ owner := 0, names := [⟨1, []⟩], chan := none, prio := 1, kind := .user 0 },
+           { owner := 0, names := [⟨1, []⟩], chan := none, prio := 0, kind := .user 1 }],
+    progs := [[.stopEv], []], tmpls := [{ name := ⟨1, []⟩ }] }
+def exS1 : Cfg := runN 5 (startOf (envChange exStStop 0 []) (.doAct 0 (.fire 0 none 0 false)))
+/-- nine steps into the flush: handler 0 has returned, the `.hApply` frame is on top -/
+def exS2 : Cfg := runN 9 (startOf (envChange exS1.st 0 []) (.flush 0))
+/-- the rest of the flush -/
+def exS3 : Cfg := runN 40 (step exS2)
+
+example : Reach exStStop exS2 ∧
+    (match exS2.stack, exS2.exn with
+      | .hApply 0 0 [1] false .none :: _, none => ((exS2.st.applyValue 0 0 .none).ev 0).stopped
+      | _, _ => false) = true ∧
+    O2Later (step exS2) exS3 ∧ DispatchedOnce exS3.st.log ∧ done exS3 = true ∧
+    invokedFor exS3.st.log.reverse 0 = [0] := by
+  refine ⟨Reach.runN (.next 0 [] _ (Reach.runN (.init 0 [] _) 5) (by decide +kernel)) 9, by decide +kernel,
+    O2Later.runN _ 40, ?_, by decide +kernel, by decide +kernel⟩
+  unfold DispatchedOnce; decide +kernel
+
+example : InitOrder exStStop := by
+  refine ⟨by decide, ?_, ?_, ?_, rfl⟩
+  · intro c k h hm
+    have : ∀ p ∈ (exStStop.comp c).htab, p.2 < 2 := by
+      match c with
+      | 0 => decide
+      | n + 1 => intro p hp; cases hp
+    exact this _ hm
+  · intro c h hm
+    have : (exStStop.comp c).globals = [] := by
+      match c with
+      | 0 => rfl
+      | n + 1 => rfl
+    rw [this] at hm; cases hm
+  · intro c key l hm
+    have : ∀ p ∈ (exStStop.comp c).cache, p.2 = [0, 1] := by
+      match c with
+      | 0 => decide
+      | n + 1 => intro p hp; cases hp
+    have hl : l = [0, 1] := this _ hm
+    subst hl
+    decide
 
 end CV.C02
